@@ -37,7 +37,7 @@ import (
 //          codec raw|zstd|gzip|junk; kind zero|rand|text; corrupt none|trunc:<k>|flip:<permille>
 //
 // Model lines carry the codec-library facts of the body (measured here with the library itself,
-// never with the repo code): fcs=<n|-> init=<0|1> tail=<0|1> frames=<window:len;...|->.
+// never with the repo code): fcs=<n|-> init=<0|1> tail=<0|1> ewd=<0|1> frames=<window:len;...|->.
 
 func init() {
 	Register(&Prop{
@@ -229,14 +229,25 @@ func c18GenStackHdr(r *Rng) string {
 func c18Gen(g *Gen) {
 	r := g.Rng
 	paths := []string{"/digest", "/digest", "/health", "/health/x", "/healthz", "/health/", "/x/health", "", "/"}
-	n := g.N(260, 6000)
+	n := g.N(150, 6000)
 	for i := 0; i < n; i++ {
 		prefix := Pick(r, []string{"", "", "", "/vgi", "/api/v1"})
 		spec := c18GenSpec(r, g.Thorough())
 		encHdr := c18GenEncHdr(r, spec.codec)
 		post := r.Chance(35)
-		if post && spec.n > 400000 {
-			spec.n = r.Range(1000, 400000)
+		if post {
+			// through the real handler only bodies whose delivery means "a valid Arrow request":
+			// never junk, never an identity header over an encoded body (the IPC reader's own
+			// 400 would be indistinguishable from a body-read refusal)
+			if spec.codec == "junk" {
+				spec.codec = "zstd"
+			}
+			if e := c18RefEnc(encHdr); (e == "" || e == "identity") && spec.codec != "raw" {
+				encHdr = spec.codec
+			}
+			if spec.n > 400000 {
+				spec.n = r.Range(1000, 400000)
+			}
 		}
 		raw, dec, win := c18Measure(spec, post, encHdr)
 		a, b, d := c18GenCfg(r, raw, dec, win)
@@ -270,7 +281,7 @@ func c18Gen(g *Gen) {
 		g.Case(lines...)
 	}
 	// coding stacks
-	ns := g.N(160, 4000)
+	ns := g.N(80, 4000)
 	for i := 0; i < ns; i++ {
 		var lines []string
 		for k := 0; k < 3; k++ {
@@ -370,41 +381,55 @@ func c18Payload(n int, kind string) []byte {
 	return b
 }
 
+// c18ZstdLevel maps the spec's level 1..9 onto klauspost's four levels, skewed to the fast ones
+// (level 4 clears tens of MiB of tables per frame).
 func c18ZstdLevel(l int) zstd.EncoderLevel {
-	if l < 1 {
-		l = 1
+	switch {
+	case l >= 1 && l <= 4:
+		return zstd.EncoderLevel(l)
+	case l == 5 || l == 6:
+		return zstd.SpeedFastest
+	case l == 7 || l == 8:
+		return zstd.SpeedDefault
+	case l == 9:
+		return zstd.SpeedBetterCompression
 	}
-	if l > 4 {
-		l = 4
+	return zstd.SpeedFastest
+}
+
+var c18Encoders = map[[2]int]*zstd.Encoder{}
+
+func c18Encoder(level, wlog int) *zstd.Encoder {
+	key := [2]int{int(c18ZstdLevel(level)), wlog}
+	if e, ok := c18Encoders[key]; ok {
+		return e
 	}
-	return zstd.EncoderLevel(l)
+	opts := []zstd.EOption{zstd.WithEncoderLevel(c18ZstdLevel(level)), zstd.WithEncoderConcurrency(1)}
+	if wlog > 0 {
+		opts = append(opts, zstd.WithWindowSize(1<<wlog))
+	}
+	e, err := zstd.NewWriter(nil, opts...)
+	if err != nil {
+		panic(err)
+	}
+	c18Encoders[key] = e
+	return e
 }
 
 func c18EncodePiece(codec string, chunk []byte, s c18Spec) []byte {
 	switch codec {
 	case "zstd":
-		opts := []zstd.EOption{zstd.WithEncoderLevel(c18ZstdLevel(s.level)), zstd.WithEncoderConcurrency(1)}
-		if s.wlog > 0 {
-			opts = append(opts, zstd.WithWindowSize(1<<s.wlog))
-		}
+		enc := c18Encoder(s.level, s.wlog)
 		if s.fcs {
-			enc, err := zstd.NewWriter(nil, opts...)
-			if err != nil {
-				panic(err)
-			}
-			defer enc.Close()
 			return enc.EncodeAll(chunk, nil)
 		}
 		var buf bytes.Buffer
-		w, err := zstd.NewWriter(&buf, opts...)
-		if err != nil {
-			panic(err)
-		}
+		enc.Reset(&buf)
 		h := len(chunk) / 2
-		w.Write(chunk[:h])
-		w.Flush() // forces the frame header out before the size is known: no declared content size
-		w.Write(chunk[h:])
-		w.Close()
+		enc.Write(chunk[:h])
+		enc.Flush() // forces the frame header out before the size is known: no declared content size
+		enc.Write(chunk[h:])
+		enc.Close()
 		return buf.Bytes()
 	case "gzip":
 		lv := s.level
@@ -428,7 +453,26 @@ type c18Built struct {
 	pieces [][]byte // wire pieces (frames / members), last one possibly corrupted
 }
 
+var c18BuildCache = map[string]*c18Built{}
+
+// c18Build memoizes the large bodies (bombs are built once per run).
 func c18Build(s c18Spec, plain []byte) *c18Built {
+	if len(plain) < 8<<20 {
+		return c18BuildRaw(s, plain)
+	}
+	key := s.String() + "#" + strconv.Itoa(len(plain))
+	if b, ok := c18BuildCache[key]; ok {
+		return b
+	}
+	if len(c18BuildCache) > 6 {
+		c18BuildCache = map[string]*c18Built{}
+	}
+	b := c18BuildRaw(s, plain)
+	c18BuildCache[key] = b
+	return b
+}
+
+func c18BuildRaw(s c18Spec, plain []byte) *c18Built {
 	b := &c18Built{plain: plain, codec: s.codec}
 	switch s.codec {
 	case "raw":
@@ -477,6 +521,7 @@ type c18Facts struct {
 	initErr bool
 	frames  []c18Frame
 	tailErr bool
+	ewd     bool // the terminal error is handed over together with the last decoded bytes
 }
 
 func (f c18Facts) String() string {
@@ -498,7 +543,7 @@ func (f c18Facts) String() string {
 		}
 		return 0
 	}
-	return fmt.Sprintf("fcs=%s init=%d tail=%d frames=%s", fc, b(f.initErr), b(f.tailErr), fr)
+	return fmt.Sprintf("fcs=%s init=%d tail=%d ewd=%d frames=%s", fc, b(f.initErr), b(f.tailErr), b(f.ewd), fr)
 }
 
 func (f c18Facts) total() int {
@@ -521,16 +566,23 @@ func (f c18Facts) maxWindow() int {
 	return m
 }
 
+var c18RefZstd *zstd.Decoder
+
 // c18RefDecode: the library's own streaming decoder, unlimited.
 func c18RefDecode(codec string, piece []byte) (n int, out []byte, initErr bool, err error) {
 	switch codec {
 	case "zstd":
-		zr, e := zstd.NewReader(bytes.NewReader(piece))
-		if e != nil {
+		if c18RefZstd == nil {
+			zr, e := zstd.NewReader(nil)
+			if e != nil {
+				panic(e)
+			}
+			c18RefZstd = zr
+		}
+		if e := c18RefZstd.Reset(bytes.NewReader(piece)); e != nil {
 			return 0, nil, true, e
 		}
-		defer zr.Close()
-		out, err = io.ReadAll(zr)
+		out, err = io.ReadAll(c18RefZstd)
 		return len(out), out, false, err
 	case "gzip":
 		gr, e := gzip.NewReader(bytes.NewReader(piece))
@@ -601,10 +653,34 @@ func c18FactsFor(codec string, built string, pieces [][]byte) c18Facts {
 		f.frames = append(f.frames, c18Frame{w, n})
 		if err != nil {
 			f.tailErr = true
+			f.ewd = c18ErrWithData(codec, whole, f.total())
 			return f
 		}
 	}
 	return f
+}
+
+// c18ErrWithData: does reading exactly the decodable prefix already report the error?
+// (io.ReadAll over io.LimitReader, the read pattern of a bounded decode.)
+func c18ErrWithData(codec string, whole []byte, avail int) bool {
+	var rd io.Reader
+	switch codec {
+	case "zstd":
+		if err := c18RefZstd.Reset(bytes.NewReader(whole)); err != nil {
+			return false
+		}
+		rd = c18RefZstd
+	case "gzip":
+		gr, err := gzip.NewReader(bytes.NewReader(whole))
+		if err != nil {
+			return false
+		}
+		rd = gr
+	default:
+		return false
+	}
+	_, err := io.ReadAll(io.LimitReader(rd, int64(avail)))
+	return err != nil
 }
 
 func c18ValidFieldValue(s string) bool {
@@ -704,10 +780,22 @@ func c18Judge(c *Case, line string, cfg c18Cfg, exempt bool, cl int64, b *c18Bui
 	decoded := facts.total()
 	overAdv := c18Over(decoded, k.decAdv) || (enc == "zstd" && c18Over(declared, k.decAdv))
 	overOwn := c18Over(decoded, k.decOwn) || (enc == "zstd" && c18Over(declared, k.decOwn))
+	eff := int64(0)
+	for _, v := range []int64{k.decAdv, k.decOwn} {
+		if v > 0 && (eff == 0 || v < eff) {
+			eff = v
+		}
+	}
+	// zstd treats the decoded-size cap as a memory bound: a frame whose window exceeds it is
+	// refused as undecodable (400) whatever its content size — the property excludes these
+	// frames from the exactness and status clauses; they must still never be accepted over a cap.
+	hedge := enc == "zstd" && eff > 0 && int64(facts.maxWindow()) > eff
 	if facts.clean() && (overAdv || overOwn) {
 		switch {
 		case status == 200:
 			c.Oracle("decoded-over-cap-accepted", desc("decoded size over a cap was accepted"))
+		case hedge:
+			c.Stat("hedge-window-over-cap")
 		case overAdv && !overOwn && status != 413:
 			c.Oracle("advertised-cap-overrun-not-413", desc("decoded size over max_request_bytes"))
 		case overOwn && !overAdv && status == 413:
@@ -726,13 +814,7 @@ func c18Judge(c *Case, line string, cfg c18Cfg, exempt bool, cl int64, b *c18Bui
 	}
 	// clean and within every cap: must be delivered exactly, unless a zstd window exceeds the
 	// decoded-size cap (the decoder treats the cap as a memory bound) — excluded by the property.
-	eff := int64(0)
-	for _, v := range []int64{k.decAdv, k.decOwn} {
-		if v > 0 && (eff == 0 || v < eff) {
-			eff = v
-		}
-	}
-	if enc == "zstd" && eff > 0 && int64(facts.maxWindow()) > eff {
+	if hedge {
 		c.Stat("hedge-window-over-cap")
 		return
 	}
@@ -924,7 +1006,11 @@ func c18Exec(c *Case) {
 				}
 				c.Stat("bomb")
 			}
-			c.Out(fmt.Sprintf("read %s %d %s sha=%s %s", f[1], len(b.body), f[2], c18Sha(b.plain), facts), fmt.Sprintf("%s raw=%d", obs, cr.n))
+			expect := b.plain
+			if enc != "zstd" && enc != "gzip" {
+				expect = b.body // sent as is: what the client "encoded" is the wire body itself
+			}
+			c.Out(fmt.Sprintf("read %s %d %s sha=%s %s", f[1], len(b.body), f[2], c18Sha(expect), facts), fmt.Sprintf("%s raw=%d", obs, cr.n))
 		case f[0] == "post" && len(f) == 5:
 			spec, ok := c18ParseSpec(f[3])
 			if !ok || (f[1] != "cl" && f[1] != "chunked") {
